@@ -73,3 +73,16 @@ func Pairs[M ~map[K]V, K comparable, V any](m M) []Pair[K, V] {
 	}
 	return ps
 }
+
+// Procs is what instrumented code gets for runtime.GOMAXPROCS(0): the knob set
+// by SetProcs, or the real value when no knob is set.
+var procsKnob atomic.Int64
+
+func SetProcs(n int) { procsKnob.Store(int64(n)) }
+
+func Procs(real int) int {
+	if k := procsKnob.Load(); k > 0 {
+		return int(k)
+	}
+	return real
+}
